@@ -41,11 +41,12 @@ def query(cmd, cases):
 
 class C01(core.Property):
     id = "C01"
-    modules = ["Proofs.EndpointInv", "Proofs.C01Proofs", "Props.C01"]
+    modules = ["Proofs.EndpointInv", "Proofs.EndpointLax", "Proofs.C01Proofs", "Props.C01"]
     obligations = ["inv_init", "inv_step", "inv_step_full", "inv_run", "post_send_response", "post_run_cb",
                    "post_cancel_ref", "handle_request_bal", "recv_inv", "seen_is_expected", "shutdown_is_reference",
                    "balance_run", "at_most_one_reply", "reply_answers_request", "exactly_one_at_quiescence",
                    "exactly_one_distinct", "enabled_decreases", "drain_quiescent", "quiescence_reachable",
+                   "lax_step", "lax_run", "at_most_one_reply_all", "reply_names_a_request_all", "C01_safety",
                    "C01_core_partial", "C01_live_partial", "C01_partial", "C01_refuted_thread_awaitable",
                    "C01_refuted", "C01_nonvacuous", "C01_reference_agrees"]
     coq_targets = ["Props/C01.vo", "Extract/ExtractC01.vo"]
